@@ -429,7 +429,13 @@ fn cli_one(seed: u64, idx: u64, work: &Path, rep: &mut Report) {
     let mut rng = Rng::derive(seed, 56, idx);
     rep.evaluations += 1;
     let bs = *rng.pick(&CLI_BS[..5]);
-    let c = gen_case(&mut rng, bs, 32 * 1024);
+    let mut c = gen_case(&mut rng, bs, 32 * 1024);
+    if idx % 60 == 11 {
+        let n = rng.range(2 * 1024 * 1024 + 1, 4 * 1024 * 1024);
+        let big = rng.bytes(n);
+        c.source.extend_from_slice(&big);
+        rep.count("cli_pairs_with_literal_over_2MiB", 1);
+    }
     let other = gen_case(&mut rng, bs, 16 * 1024).basis;
     let Caught::Ok(Ok(sig)) = sig_generate(&c.basis, bs) else { return };
     let Caught::Ok(Ok(d0)) = delta_sync(&c.source, &sig) else { return };
